@@ -3,7 +3,7 @@ ID = "C07"
 LEVEL = "model_checking"
 JUDGE = "Judge_C07"
 RULE = ("TLC enumerates aggregate lists (each of the nine functions alone + 6 mixed lists) x aggregated column (size, "
-        "hardlinks, uid, line_count, length(name)) x 9 WHERE filters selecting 0, 1, 3 or many entries of world W7 (non-integer "
+        "hardlinks, uid, line_count, length(name)) x 15 WHERE filters selecting 0, 1, 3 or many entries of world W7 (one file under three hard-linked names, non-integer "
         "means, 2^33, 3000000001/3/5); one run each; Judge_C07 recomputes the aggregates exactly over BigNat from the lstat "
         "values and accepts printed decimals within relative 1e-9 (AVG) / 1e-6 (variances). Non-trivial = >= 2 matching entries and "
         "at least one defined aggregate accepted. "
